@@ -101,6 +101,33 @@ theorem C17_backslash_is_separator (cwd root name : Str) :
   refine ⟨?_, fixSep_noBackslash name⟩
   simp [pathJoinSafe, fixSep_idem]
 
+/-- The router mechanism: a `:name*` capture may begin with a separator (`/static//etc/passwd`
+captures `/etc/passwd`; a backslash counts as a separator).  Every such name is refused, whatever the
+root and whatever follows the separator. -/
+theorem C17_leading_separator_refused (cwd root name : Str) (c : Char) (rest : Str)
+    (hname : name = c :: rest) (hc : c = '/' ∨ c = '\\') :
+    pathJoinSafe cwd root name = .error .valueError := by
+  subst hname
+  cases h : pathJoinSafe cwd root (c :: rest) with
+  | error e => cases e; rfl
+  | ok p =>
+    obtain ⟨_, _, h3, _⟩ := pathJoinSafe_ok cwd root (c :: rest) p h
+    rcases hc with rfl | rfl <;> simp [fixSep, isabs] at h3
+
+/-- `.` and `..` segments are refused wherever they stand and whichever separator delimits them. -/
+theorem C17_dot_segments_refused (cwd root pre post seg : Str) (hseg : seg = dot ∨ seg = dotdot)
+    (hpre : pre = [] ∨ ∃ q, pre = q ++ ['/'] ∨ pre = q ++ ['\\'])
+    (hpost : post = [] ∨ ∃ q, post = '/' :: q ∨ post = '\\' :: q) :
+    pathJoinSafe cwd root (pre ++ seg ++ post) = .error .valueError := by
+  cases h : pathJoinSafe cwd root (pre ++ seg ++ post) with
+  | error e => cases e; rfl
+  | ok p =>
+    obtain ⟨h1, h2, _, _⟩ := pathJoinSafe_ok cwd root _ p h
+    exact absurd (seg_mem_split pre post seg hseg hpre hpost) (by
+      rcases hseg with rfl | rfl
+      · exact h2
+      · exact h1)
+
 /-- Witness that the repair is needed: the function as it was (no absolute-name check) returns
 `/etc/passwd` for root `/srv/www`, which is not beneath the root; the repaired function refuses
 the same input, and also its backslash and router-capture (`//etc/passwd`) spellings. -/
@@ -133,5 +160,15 @@ example : pathJoinSafe "/x".toList "/srv/www/".toList [] = .ok "/srv/www".toList
 example : pathJoinSafe "/x".toList "/srv".toList "a/../b".toList = .error .valueError ∧
     pathJoinSafe "/x".toList "/srv".toList "a\\.\\b".toList = .error .valueError ∧
     pathJoinSafe "/x".toList "/srv".toList "\\a".toList = .error .valueError := by decide
+
+/-- hypotheses of `C17_leading_separator_refused`: the capture of `GET /static//etc/passwd` -/
+example : pathJoinSafe "/x".toList "/srv/www".toList "/etc/passwd".toList = .error .valueError :=
+  C17_leading_separator_refused _ _ _ '/' "etc/passwd".toList (by decide) (Or.inl rfl)
+
+/-- hypotheses of `C17_dot_segments_refused`: `a/..\b` -/
+example : pathJoinSafe "/x".toList "/srv".toList ("a/".toList ++ dotdot ++ "\\b".toList)
+    = .error .valueError :=
+  C17_dot_segments_refused _ _ "a/".toList "\\b".toList dotdot (Or.inr rfl)
+    (Or.inr ⟨"a".toList, Or.inl (by decide)⟩) (Or.inr ⟨"b".toList, Or.inr (by decide)⟩)
 
 end Mpgs.Path
